@@ -7,8 +7,8 @@
 //
 // SortProbe: sorted(l, key=f[, reverse=...]) on pairwise different elements with FEW different keys (ties everywhere),
 // next to [f(x) for x in l]; the result must be CPython's (stable; reverse=True keeps equal keys in input order).
-// For at most 12 elements the call is also a model case (Model/C16_Sort.v SSort): keys as the real interpreter computed
-// them, and the permutation it applied.
+// Every call is also a model case (Model/C16_Sort.v SSort): keys as the real interpreter computed them, and the
+// permutation it applied (2..12 elements, and 13..40 where the sort.Slice of before /repo 62283f2 was not stable).
 package main
 
 import (
@@ -249,7 +249,7 @@ type sortProbe struct {
 	calls []sortCall // the calls with key=
 }
 
-// SortProbe generates one sorted(key=) program; big: 13..40 elements (sort.Slice is pdqsort there).
+// SortProbe generates one sorted(key=) program; big: 13..40 elements (sort.Slice was pdqsort there).
 func SortProbe(r *lib.Rng, big bool) *sortProbe {
 	p := &sortProbe{}
 	n := r.Range(2, 12)
